@@ -9,7 +9,7 @@ appended to SUBCHECKS by the coordinator.
   design      exhaustive TLC runs of the property-respecting design (no deviation enabled)
   deviations  for each named deviation Dk: TLC's counterexample schedule, replayed 3x on the real code in a
               child process; the recorded trace is judged by TLC (TraceFilterSystem) -> reproduced / absent
-  indexer     the same for the indexer service's quit re-broadcast (D20) + an ordering stress
+  indexer     the same for the indexer service's quit re-broadcast (D27) + an ordering stress
   simulate    tlc -simulate behaviours (deviations that are present enabled) replayed on the real code,
               every recorded trace judged by TLC
   stress      free-running seeded stress of the real objects (also under -race), every trace judged by TLC
@@ -27,24 +27,24 @@ import time
 import vlib
 from vlib import Infra, Verdict, Work, log, register
 
-ALL = ["D11", "D12", "D18", "D19", "D20"]
+ALL = ["D11", "D12", "D25", "D26", "D27"]
 SIG = {
     "D11": "Schedule/send-on-closed-topic-channel-after-uninstall",
     "D12": "Schedule/stale-publishTopic-closes-reregistered-topic",
-    "D18": "Schedule/joined-subscription-torn-down-by-installer-uninstall",
-    "D19": "Schedule/pending-filter-consumer-spins-after-uninstall",
-    "D20": "Schedule/indexer-quit-rebroadcast-blocks-OnStart",
+    "D25": "Schedule/joined-subscription-torn-down-by-installer-uninstall",
+    "D26": "Schedule/pending-filter-consumer-spins-after-uninstall",
+    "D27": "Schedule/indexer-quit-rebroadcast-blocks-OnStart",
 }
 TEXT = {
     "D11": "consumeEvents looks the topic channel up under indexMux.RLock but sends after RUnlock; an uninstall in between closes "
            "the channel: 'panic: send on closed channel' in a goroutine nobody recovers (node crash)",
     "D12": "a publishTopic goroutine whose source was closed by an uninstall runs closeAllSubscribers(name) / delete(topics, name) "
            "after the topic was registered again: the new subscribers' channels are closed, the new topic vanishes from the bus",
-    "D18": "EventSystem.subscribe joins an existing topic without registering in es.index: when the subscription that installed "
+    "D25": "EventSystem.subscribe joins an existing topic without registering in es.index: when the subscription that installed "
            "the topic is uninstalled the topic is torn down under the joined ones (their filters silently disappear)",
-    "D19": "the consumer goroutine of NewPendingTransactionFilter does not return after <-errCh: after UninstallFilter it spins "
+    "D26": "the consumer goroutine of NewPendingTransactionFilter does not return after <-errCh: after UninstallFilter it spins "
            "forever taking filtersMu (one busy goroutine per uninstalled pending-transaction filter)",
-    "D20": "EVMIndexerService: both loops answer Quit by sending into quitSignalReBroadcast (capacity 1); the second sender "
+    "D27": "EVMIndexerService: both loops answer Quit by sending into quitSignalReBroadcast (capacity 1); the second sender "
            "blocks for ever: OnStart never returns after Stop() (its deferred Unsubscribe never runs)",
 }
 
@@ -53,7 +53,7 @@ BASE = dict(NTopics=1, NClients=2, Rounds=1, MaxEvents=1, MaxPolls=0, MaxTicks=0
 
 SIZES = {
     "quick": dict(sim=20, stress=20, race=4, stress_events=8),
-    "thorough": dict(sim=1500, stress=400, race=40, stress_events=12),
+    "thorough": dict(sim=500, stress=250, race=24, stress_events=12),
 }
 
 
@@ -274,8 +274,8 @@ DEVIATIONS = [
     # (D12 first: its repair changes the steps of publishTopic, which the judge of the later ones must know)
     ("D12", dict(NClients=1, Rounds=2, MaxEvents=0), "CexLostD12", "lost"),
     ("D11", dict(NClients=1, Rounds=1, MaxEvents=1), "CexNoCrash", "crash"),
-    ("D18", dict(NClients=2, Rounds=1, MaxEvents=0), "CexLostD18", "lost"),
-    ("D19", dict(NClients=2, Rounds=1, MaxEvents=0, Api="TRUE", NTopics=2, SpinTopics="{2}"), "CexNoSpin", "spin"),
+    ("D25", dict(NClients=2, Rounds=1, MaxEvents=0), "CexLostD25", "lost"),
+    ("D26", dict(NClients=2, Rounds=1, MaxEvents=0, Api="TRUE", NTopics=2, SpinTopics="{2}"), "CexNoSpin", "spin"),
 ]
 
 
@@ -303,7 +303,7 @@ def sub_deviations(ctx):
     vlib.stage_spec(d)
     present, report = set(), {}
     for dk, consts, inv, expect in DEVIATIONS:
-        kn = {dk, "D18"}  # D18 is also the shape of today's subscribe(): the schedules must have it
+        kn = {dk, "D25"}  # D25 is also the shape of today's subscribe(): the schedules must have it
         consts = dict(consts, Known=known_set(kn))
         write(os.path.join(d, dk + ".cfg"), cfg("SimSpec", consts, [inv], deadlock=False, view="View"))
         r = vlib.tlc(d, "FilterSystem_sim", dk + ".cfg", workers=1, timeout=900)
@@ -371,15 +371,15 @@ def sub_indexer(ctx):
     v, w, binp = ctx["v"], ctx["w"], ctx["bin"]
     d = w.sub("indexer")
     vlib.stage_spec(d)
-    write(os.path.join(d, "d20.cfg"), cfg("SimSpec", dict(NClients=0, MaxEvents=0, WithIndexer="TRUE", MaxHeaders=1, Known='{"D20"}'),
+    write(os.path.join(d, "d20.cfg"), cfg("SimSpec", dict(NClients=0, MaxEvents=0, WithIndexer="TRUE", MaxHeaders=1, Known='{"D27"}'),
                                           ["CexNoStuckQuit"], deadlock=False, view="View"))
     r = vlib.tlc(d, "FilterSystem_sim", "d20.cfg", workers=1, timeout=900)
     ss = sched_of(r["out"])
     if not r["violated"] or not ss:
-        raise Infra("deviation D20 enabled but TLC finds no stuck quit re-broadcast (deviation vacuous):\n" + r["out"][-1500:])
+        raise Infra("deviation D27 enabled but TLC finds no stuck quit re-broadcast (deviation vacuous):\n" + r["out"][-1500:])
     v.add_mc(r)
     sched = ["%d.%s" % (s["p"], s["l"]) for s in ss[0]]
-    log("deviation D20: TLC counterexample (a loop blocked for ever in its quit re-broadcast) after %d distinct states: %s" % (r["distinct"], " ".join(sched)))
+    log("deviation D27: TLC counterexample (a loop blocked for ever in its quit re-broadcast) after %d distinct states: %s" % (r["distinct"], " ".join(sched)))
     outs = []
     for k in range(3):
         plan = dict(scenario="quit-rebroadcast", headers=2, seed=k, out=os.path.join(d, "quit%d" % k))
@@ -392,18 +392,18 @@ def sub_indexer(ctx):
         else:
             outs.append("returned" if res["returned"] else "stuck")
     ctx["replayed"] += 3
-    ctx["samples"].append(dict(deviation="D20", schedule=" ".join(sched), real_outcomes=outs))
+    ctx["samples"].append(dict(deviation="D27", schedule=" ".join(sched), real_outcomes=outs))
     if len(set(outs)) != 1:
-        raise Infra("replay of the D20 schedule is not deterministic: %s" % outs)
+        raise Infra("replay of the D27 schedule is not deterministic: %s" % outs)
     if outs[0] == "stuck":
-        ctx["present"].add("D20")
-        rp = vlib.save_replay(ctx["pid"], "D20", [([json.dumps(dict(kind="indexer", deviation="D20", expect="stuck",
+        ctx["present"].add("D27")
+        rp = vlib.save_replay(ctx["pid"], "D27", [([json.dumps(dict(kind="indexer", deviation="D27", expect="stuck",
                               plan=dict(scenario="quit-rebroadcast", headers=2, seed=0, out="replayed")))], "case.json")],
-                              "D20 reproduced 3x: OnStart does not return within 3 s of Stop(). " + TEXT["D20"])
-        v.violation(SIG["D20"], rp, "D20: " + TEXT["D20"] + " [real outcome 3/3: OnStart still blocked 3 s after Stop()]")
-        log("deviation D20 REPRODUCED on the real code 3/3: OnStart blocked after Stop()")
+                              "D27 reproduced 3x: OnStart does not return within 3 s of Stop(). " + TEXT["D27"])
+        v.violation(SIG["D27"], rp, "D27: " + TEXT["D27"] + " [real outcome 3/3: OnStart still blocked 3 s after Stop()]")
+        log("deviation D27 REPRODUCED on the real code 3/3: OnStart blocked after Stop()")
     elif outs[0] == "returned":
-        log("deviation D20: OnStart returns after Stop() under the schedule -> absent")
+        log("deviation D27: OnStart returns after Stop() under the schedule -> absent")
     else:
         raise Infra("indexer scenario could not be steered: %s" % outs)
     ctx["traces_ok"] += 3
@@ -424,11 +424,11 @@ def sub_indexer(ctx):
             rp = vlib.save_replay(ctx["pid"], "D13", [([json.dumps(res)], "indexer.json")], "heights indexed out of order / missing")
             v.violation("Corrupt/indexer-heights-out-of-order-or-missing", rp,
                         "indexed %d of %d heights, in order=%s" % (len(res["indexed"]), n, res["inOrder"]))
-        elif not res["returned"] and "D20" not in ctx["present"]:
+        elif not res["returned"] and "D27" not in ctx["present"]:
             v.violation("Deadlock/indexer-OnStart-does-not-return", "-", "OnStart did not return after Stop()")
         else:
             ctx["traces_ok"] += 1
-            log("indexer stress (%s): %d heights indexed once each in order%s" % (tag, n, "" if res["returned"] else " (OnStart blocked at Stop: D20)"))
+            log("indexer stress (%s): %d heights indexed once each in order%s" % (tag, n, "" if res["returned"] else " (OnStart blocked at Stop: D27)"))
 
 
 # ------------------------------------------------------------------------------------------------ simulated schedules
@@ -466,10 +466,10 @@ def handle_outcome(ctx, o, plan, tag, known):
     if o["cls"] == "crash" and "D11" in explained and "send on closed channel" in (o["panic"] or ""):
         ctx["traces_ok"] += 1  # the trace conforms; the crash is the reproduced finding
         return
-    if o["cls"] == "lost" and explained and set(o["dev_used"]) & {"D12", "D18"}:
+    if o["cls"] == "lost" and explained and set(o["dev_used"]) & {"D12", "D25"}:
         ctx["traces_ok"] += 1
         return
-    if o["cls"] == "spin" and "D19" in ctx["present"]:
+    if o["cls"] == "spin" and "D26" in ctx["present"]:
         ctx["traces_ok"] += 1
         return
     if o["cls"] == "stuck":
@@ -499,7 +499,7 @@ def sub_simulate(ctx):
     n = SIZES[ctx["tier"]]["sim"]
     d = w.sub("sim")
     vlib.stage_spec(d)
-    known = (ctx["present"] & set(ALL[:4])) | {"D18"}
+    known = (ctx["present"] & set(ALL[:4])) | {"D25"}
     jobs = []
     for name, consts, share in [
         ("sim-es", dict(NClients=3, Rounds=2, MaxEvents=3, NTopics=2, BufCap=3, RespCap=3), 0.6),
@@ -540,7 +540,7 @@ def sub_stress(ctx):
     v, w, binp, seed = ctx["v"], ctx["w"], ctx["bin"], ctx["seed"]
     sz = SIZES[ctx["tier"]]
     d = w.sub("stress")
-    known = (ctx["present"] & set(ALL[:4])) | {"D18"}
+    known = (ctx["present"] & set(ALL[:4])) | {"D25"}
     jobs = []
     for i in range(sz["stress"]):
         jobs.append((binp, "stress-%d" % i, dict(mode="stress", api=(i % 2 == 1), clients=2 + i % 3, rounds=2 + (i // 3) % 2, topics=1 + (i // 2) % 2,
@@ -606,7 +606,7 @@ def sub_stress(ctx):
 def sub_selftest(ctx):
     w = ctx["w"]
     # a dedicated run: one client, three rounds, one topic -- no join, no concurrent uninstall: always a clean trace
-    known = (ctx["present"] & set(ALL[:4])) | {"D18"}
+    known = (ctx["present"] & set(ALL[:4])) | {"D25"}
     plan = dict(mode="stress", api=False, clients=1, rounds=3, topics=1, events=6, polls=0, seed=ctx["seed"], steps=[],
                 out=os.path.join(w.sub("selftest"), "base"))
     o = classify(ctx["bin"], plan, known)
